@@ -75,6 +75,53 @@ def to_smt2(hyps, goal, axioms=()):
     return s.to_smt2()
 
 
+def focus_hyps(hyps, goal, depth):
+    """hypothesis selection by symbol reachability (in the spirit of SInE): start from the uninterpreted symbols of the goal,
+    `depth` times add every hypothesis that shares a non-ubiquitous symbol with what is already selected.  Quantifier-free
+    hypotheses are cheap and always kept.  Dropping hypotheses is sound: `unsat` of the smaller query is a proof of the obligation;
+    any other answer of the smaller query is ignored."""
+    hs = list(hyps)
+    sy = []
+    for h in hs:
+        u, seen = set(), set()
+        _symbols(h, u, seen)
+        sy.append(u)
+    freq = {}
+    for u in sy:
+        for x in u:
+            freq[x] = freq.get(x, 0) + 1
+    common = {x for x, c in freq.items() if c > max(8, 0.4 * len(hs))}
+    rel, seen = set(), set()
+    _symbols(goal, rel, seen)
+    chosen = [False] * len(hs)
+    for i, h in enumerate(hs):
+        if not _has_quantifier(h):
+            chosen[i] = True
+    for _ in range(depth):
+        grow = set()
+        for i, u in enumerate(sy):
+            if not chosen[i] and (u - common) & rel:
+                chosen[i] = True
+                grow |= u
+        if not grow:
+            break
+        rel |= grow
+    return [h for h, c in zip(hs, chosen) if c]
+
+
+def _has_quantifier(e):
+    stack, seen = [e], set()
+    while stack:
+        t = stack.pop()
+        if t.get_id() in seen:
+            continue
+        seen.add(t.get_id())
+        if z3.is_quantifier(t):
+            return True
+        stack.extend(t.children())
+    return False
+
+
 def _model_dict(m, limit=200):
     out = {}
     for d in m.decls()[:limit]:
@@ -358,6 +405,15 @@ def discharge(vcs, axioms_of, tier='quick', both=False, ladders=None):
             vc, smt2 = todo[name]
             for k, opts in enumerate(PORTFOLIO):
                 pending.append((p.apply_async(_check_z3, (('%s|%d' % (name, k), smt2, Z3_TIMEOUT_MS, True, opts),)), 'z3'))
+            # the same obligation with fewer hypotheses (only an `unsat` of these counts, see focus_hyps)
+            for depth in (1, 2):
+                try:
+                    fh = focus_hyps(vc.hyps, vc.goal, depth)
+                except Exception:
+                    continue
+                if len(fh) < len(vc.hyps):
+                    pending.append((p.apply_async(_check_z3, (('%s|focus%d' % (name, depth), to_smt2(fh, vc.goal, axioms_of.get(vc.func, ())),
+                                                                Z3_TIMEOUT_MS, False),)), 'z3focus'))
             pending.append((p.apply_async(_check_cvc5, ((name + '|c', smt2, CVC5_TIMEOUT_MS, False),)), 'cvc5'))
         while pending and open_names:
             still = []
@@ -372,6 +428,8 @@ def discharge(vcs, axioms_of, tier='quick', both=False, ladders=None):
                 vc, _ = todo[name]
                 if kind_ == 'cvc5':
                     vc.second = (res, ms, solver)
+                if kind_ == 'z3focus' and res != 'unsat':
+                    continue                      # a model of fewer hypotheses says nothing about the obligation
                 if vc.result == 'unknown' and res in ('sat', 'unsat'):
                     vc.result, vc.model, vc.reason = res, model, reason
                     vc.solver = solver if kind_ == 'cvc5' else solver + '+portfolio#%s' % k
